@@ -349,6 +349,29 @@ def phi(cond, a, b):
     return Guard(cond, a, b)
 
 
+def conjuncts(t):
+    """flatten  a and b  (represented as Guard(a, b, a) / and*(...)) into its conjunct terms"""
+    if isinstance(t, Guard) and repr(t.b) == repr(t.cond):
+        return conjuncts(t.cond) + conjuncts(t.a)
+    if isinstance(t, Op) and t.op == "and*":
+        out = []
+        for a in t.args:
+            out.extend(conjuncts(a))
+        return out
+    return [t]
+
+
+def disjuncts(t):
+    if isinstance(t, Guard) and repr(t.a) == repr(t.cond):
+        return disjuncts(t.cond) + disjuncts(t.b)
+    if isinstance(t, Op) and t.op == "or*":
+        out = []
+        for a in t.args:
+            out.extend(disjuncts(a))
+        return out
+    return [t]
+
+
 def neg(c):
     if isinstance(c, Op) and c.op == "not":
         return c.args[0]
@@ -990,6 +1013,9 @@ class Spec(object):
             return Top("print/open")
         if f is struct.unpack or name == "unpack" and getattr(f, "__module__", "") in ("_struct", "struct"):
             return self.model_unpack(args, node)
+        if f is struct.iter_unpack and len(args) == 2 and not is_sym(args[0]) and is_sym(args[1]):
+            self.effect("iter_unpack", args[0], args[1], node=node)
+            return Sym("iter_unpack(%s,%s)" % (args[0], show(args[1])), "iterunpack", {"fmt": args[0], "data": args[1]})
         if f is isinstance and len(args) == 2:
             v, t = args
             if isinstance(v, (Instance, FuncRef, ClassRef, ModuleNS, BoundMethod)):
@@ -1582,6 +1608,10 @@ class Spec(object):
             return (Sym("%s:idx" % tag, "int"), self.elem_of(it.args[1], tag + ".e"))
         if isinstance(it, Sym) and it.kind == "bytes":
             return Sym("%s:elem" % tag, "byte", {"of": it})
+        if isinstance(it, Sym) and it.kind == "iterunpack":
+            fmt = it.info["fmt"]
+            codes = [c for c in fmt if c not in "<>=@!"]
+            return tuple(Sym("%s:fld%d(%s)" % (tag, i, c), "int", {"fmt": c, "iter_unpack": fmt, "idx": i}) for i, c in enumerate(codes))
         if isinstance(it, Sym) and it.kind == "gen":
             if self.gen_elem_hook is not None:
                 r = self.gen_elem_hook(self, it, tag)
